@@ -638,3 +638,91 @@ pub fn classify_move(ctx: &mut Ctx, p: &Pos, m: Mv) -> bool {
     }
     special
 }
+
+// ------------------------------------------------------------------ planted pattern: en passant next to the king
+
+/// A position directly after a double pawn push, in which an en-passant capture lands
+/// diagonally adjacent to the enemy king, with the capturing side's pieces crowded around that
+/// king (so that the capture frequently mates, stalemates or merely checks).  Built as a legal
+/// predecessor plus the reference model's double push.
+pub fn plant_ep_near_king(t: &mut Tape) -> Option<Pos> {
+    let c = if t.chance(1, 2) { Col::W } else { Col::B }; // the capturer
+    let o = c.other();
+    // ranks from the capturer's point of view
+    let (r_cap, r_dest, r_home): (i8, i8, i8) = if c == Col::W { (4, 5, 6) } else { (3, 2, 1) };
+    let fd = t.below(8) as i8; // file of the pushed pawn / capture destination
+    let side = if t.chance(1, 2) { 1 } else { -1 };
+    let fc = fd + side; // capturer's file
+    if !(0..8).contains(&fc) {
+        return None;
+    }
+    let mut p = Pos::empty();
+    p.board[mk(fd, r_home)? as usize] = Some((o, Kind::P));
+    p.board[mk(fc, r_cap)? as usize] = Some((c, Kind::P));
+    // enemy king diagonally adjacent to the destination: in front of the pawn (real check) or
+    // behind it (no check)
+    let front = t.chance(2, 3);
+    let kr = if front { r_dest + (r_dest - r_cap) } else { r_cap };
+    let kf = fd + if t.chance(1, 2) { 1 } else { -1 };
+    let ks = mk(kf, kr)?;
+    if p.at(ks).is_some() {
+        return None;
+    }
+    p.board[ks as usize] = Some((o, Kind::K));
+    // capturer's king somewhere not adjacent
+    let cands: Vec<Sq> = (0..64u8).filter(|&s| p.at(s).is_none() && !adjacent(s, ks) && s != mk(fd, r_dest).unwrap() && s != mk(fd, r_cap).unwrap()).collect();
+    let near: Vec<Sq> = cands.iter().copied().filter(|&s| (file_of(s) - kf).abs() <= 2 && (rank_of(s) - kr).abs() <= 2).collect();
+    let cks = if !near.is_empty() && t.chance(1, 2) { near[t.below(near.len())] } else { cands[t.below(cands.len())] };
+    p.board[cks as usize] = Some((c, Kind::K));
+    // attackers crowd the enemy king
+    let n_att = 1 + t.below(5);
+    for _ in 0..n_att {
+        let k = [Kind::Q, Kind::R, Kind::R, Kind::B, Kind::N, Kind::N, Kind::P][t.below(7)];
+        let spots: Vec<Sq> = (0..64u8)
+            .filter(|&s| {
+                p.at(s).is_none()
+                    && s != mk(fd, r_dest).unwrap()
+                    && s != mk(fd, r_cap).unwrap()
+                    && (file_of(s) - kf).abs() <= 3
+                    && (rank_of(s) - kr).abs() <= 3
+                    && (k != Kind::P || (rank_of(s) != 0 && rank_of(s) != 7))
+            })
+            .collect();
+        if spots.is_empty() {
+            break;
+        }
+        p.board[spots[t.below(spots.len())] as usize] = Some((c, k));
+    }
+    // a few defenders / blockers next to their king
+    for _ in 0..t.below(4) {
+        let k = [Kind::P, Kind::P, Kind::B, Kind::N, Kind::R][t.below(5)];
+        let spots: Vec<Sq> = (0..64u8)
+            .filter(|&s| p.at(s).is_none() && adjacent(s, ks) && s != mk(fd, r_dest).unwrap() && s != mk(fd, r_cap).unwrap() && (k != Kind::P || (rank_of(s) != 0 && rank_of(s) != 7)))
+            .collect();
+        if spots.is_empty() {
+            break;
+        }
+        p.board[spots[t.below(spots.len())] as usize] = Some((o, k));
+    }
+    p.stm = o;
+    clear_attackers(&mut p, c);
+    if t.chance(7, 8) {
+        // the pusher is normally not in check before the push (otherwise the push is rarely legal)
+        clear_attackers(&mut p, o);
+    }
+    if p.at(mk(fd, r_home)? ) != Some((o, Kind::P)) || p.at(mk(fc, r_cap)?) != Some((c, Kind::P)) {
+        return None;
+    }
+    if p.validate().is_err() {
+        return None;
+    }
+    let push = Mv::new(mk(fd, r_home)?, mk(fd, r_cap)?, None);
+    if !p.pseudo_moves().contains(&push) || !p.is_legal(push) {
+        return None;
+    }
+    let n = p.apply(push);
+    if n.validate().is_err() {
+        return None;
+    }
+    Some(n)
+}
